@@ -132,6 +132,9 @@ func (w *World) harnessAPI(t *Thread, f *Frame, name string, args []Val) (Val, b
 		t.ready = func() bool { return tm.fired }
 		return nil, true
 	case "vpYield":
+		if len(t.held) > 0 {
+			w.yieldUnderLock = true // a goroutine parks while holding a mutex: native replay cannot use synctest.Wait stepping
+		}
 		t.yielded = true
 		t.yieldAt = args[0].(string)
 		w.retBlock(f)
